@@ -903,6 +903,11 @@ func FSMkdirAll(path string, perm os.FileMode) error {
 		return os.MkdirAll(path, perm)
 	}
 	g := s.seam("mkdirall " + s.rel(path))
+	if s.metaFail() {
+		// (the folder cannot be created: read-only parent, quota)
+		s.logEvent(g, "mkdirall "+s.rel(path)+" -> injected EIO")
+		return eio("mkdir", path)
+	}
 	err := os.MkdirAll(path, perm)
 	s.logEvent(g, "mkdirall "+s.rel(path)+" -> "+errClass(err))
 	return err
